@@ -242,8 +242,15 @@ class Text(L.SymVal):
 
 class Tagged(L.SymVal):
     """opaque result of a summarised callee, tagged with the call it came from"""
+    TEXT_TAGS = ("json", "wasabi_json")         # callees that return text
+
     def __init__(self, tag, **kw):
         self.tag, self.kw = tag, kw
+
+    def sym_type(self):
+        if self.tag in self.TEXT_TAGS:
+            return str
+        raise Undecided("type of the result of " + self.tag)
 
     def sym_binop(self, ctx, op, other, reflected):
         import ast as _ast
